@@ -184,6 +184,18 @@ CHECKS = {
              "shadows are decided on the extracted references by TLC); rustc's name resolution is the ground truth.",
         technique="TLA+ spec (Hygiene) over references extracted from real expansions + hostile-scope twin probes",
         design="4 (C15)"),
+    "C17": dict(
+        text="TLC model-checks Attrs.tla: attribute processing as a fold (parse_attrs_with + merge_attrs) for 12 documented "
+             "grammar families; Result(list) is REJECT or the multiset of canonical contributions (skip=ignore, bound=bounds, "
+             "joined vs split type lists and reference kinds, trailing commas); laws: order-freeness, corruption => REJECT. Every "
+             "attribute list of up to 2 (quick) / 3 (thorough) attributes per position is rendered onto a real item and expanded "
+             "in-process on the working-tree sources: lists with equal Result must expand to the same multiset of impls, REJECT "
+             "lists (unknown argument, duplicate, conflicting kinds, legacy syntax, meaningless value) must give a diagnostic; a "
+             "seeded sample of REJECT lists is also compiled with the real derive and must fail.",
+        note="one representative item per family; unknown *type* names are not generated as corruptions (they reach rustc as "
+             "unresolved paths); `where(..)` is not a documented spelling and is not claimed.",
+        technique="TLA+ spec (Attrs: merge as a fold, equivalence classes) + TLC enumeration, in-process replay of every class",
+        design="4 (C17)"),
 }
 
 NOT_YET = {}
